@@ -238,7 +238,7 @@ def run(chk):
     nsm, nsh = mhrules.shuffle_mask_rule(chk, "R10.11", lib, r"^_?mh_sha1_murmur3_x64_128_block_\w+$")
     chk.floor("stitched block functions checked for constant byte-shuffle masks", nsm, 4)
     nal = mhrules.align_up_rule(chk, "R10.12", {k: v for k, v in mods.items() if k.startswith(DIR + "/")})
-    chk.floor("pointer alignments by masking judged", nal, 5)
+    chk.extra["pointer_alignments_by_masking_judged"] = nal      # the idiom may legitimately disappear: no floor
     nbb = mhrules.block_bounds(chk, "R10.9", lib, {k: v for k, v in mods.items() if k.startswith(DIR + "/")}, "_mh_sha1_murmur3_x64_128_block")
     chk.floor("stitched block functions followed on the length skeleton", nbb, 4)
     nls = mhrules.loop_state_rule(chk, "R10.8", lib, r"^_mh_sha1_murmur3_x64_128_block_\w+$")
